@@ -21,8 +21,11 @@ Theorem C01_Spec_holds : forall i : input, wf i = true -> Spec i (model i).
 Proof. exact model_meets_Spec. Qed.
 Print Assumptions C01_Spec_holds.
 
-(* the correspondence compares observations exactly *)
-Theorem C01_obs_eqb : forall a b, obs_eqb a b = true <-> a = b.
+(* the correspondence compares the calls on the result and what run() raised exactly, and the
+   bodies that ran as a set (alpha forgets their order and multiplicity, which are C02's subject) *)
+Theorem C01_obs_eqb : forall a b,
+  obs_eqb a b = true <->
+  o_events a = o_events b /\ o_raised a = o_raised b /\ (forall t, In t (o_ran a) <-> In t (o_ran b)).
 Proof. exact obs_eqb_spec. Qed.
 Print Assumptions C01_obs_eqb.
 
@@ -71,6 +74,12 @@ Theorem C01_returns_otherwise : forall p a0,
 Proof. exact returns_otherwise. Qed.
 Print Assumptions C01_returns_otherwise.
 
+(* "does not stop tearDown and the cleanups from running": for every program, the bodies that ran
+   are exactly setUp, the test and tearDown iff setUp returned, and every registered cleanup *)
+Theorem C01_all_bodies_ran : forall i t, In t (o_ran (model i)) <-> In t (expected_tokens (i_prog i)).
+Proof. exact all_bodies_ran. Qed.
+Print Assumptions C01_all_bodies_ran.
+
 (* C01_stop_before_raise: whatever propagates, stopTest was delivered last, after exactly one outcome *)
 Theorem C01_stop_before_raise : forall p a0,
   let '(s, propagated, oof) := run p a0 in
@@ -103,6 +112,7 @@ Example C01_example :
               p_body := (2, [AInsertHandler CValueError OSkip; ARaise (Exc CKbd None)]);
               p_teardown := (3, [ARaise (Multi [])]); p_up_teardown := true; p_handlers := [] |} in
   wf {| i_prog := p; i_flavour := F26 |} = true
-  /\ model {| i_prog := p; i_flavour := F26 |} = {| o_events := [Start; Out OErr; Stop]; o_raised := RKbd |}
+  /\ model {| i_prog := p; i_flavour := F26 |}
+     = {| o_events := [Start; Out OErr; Stop]; o_raised := RKbd; o_ran := [1; 2; 3; 10; 11] |}
   /\ raised p = [Exc CKbd None; Multi []; Exc CValueError None].
 Proof. vm_compute. repeat split. Qed.
